@@ -37,7 +37,7 @@ macro_rules! impl_bits {
                 #[inline]
                 fn clear_high_bits(&self, n: usize) -> Self {
                     debug_assert!(n <= Self::LEN);
-                    *self & ((u64::MAX as $ty) >> n)
+                    *self & (u64::MAX as $ty).checked_shr(n as u32).unwrap_or(0)
                 }
             }
         )*
@@ -97,6 +97,6 @@ impl BitMask for NeonBits {
     #[inline]
     fn clear_high_bits(&self, n: usize) -> Self {
         debug_assert!(n <= Self::LEN);
-        Self(self.0 & u64::MAX >> (n * 4))
+        Self(self.0 & u64::MAX.checked_shr((n * 4) as u32).unwrap_or(0))
     }
 }
